@@ -3,6 +3,7 @@
 set -u
 P=$1; NAME=${2:-$1}
 WT=${WT_PREFIX:-/tmp/wt_}$P
+export WT
 [ -f $WT/SEED/patch.diff ] || { echo "no patch in $WT/SEED"; exit 2; }
 cd $WT
 git checkout -q -- leuvenmapmatching
@@ -20,10 +21,10 @@ if [ $O -eq 0 ] && [ $M -ne 0 ] && echo "$T" | grep -q "43 passed"; then
   cp SEED/patch.diff $D/patch.diff
   sed "s#$WT#/repo#g" SEED/demo.py > $D/demo.py
   /venv/bin/python - "$D" "$P" "$O" "$M" "$T" <<'PY'
-import json, sys
+import json, os, sys
 d, p, o, m, t = sys.argv[1:6]
 try:
-    meta = json.load(open(f"{__import__(chr(111)+chr(115)).environ.get(chr(87)+chr(84), chr(47)+chr(116)+chr(109)+chr(112)+chr(47)+chr(119)+chr(116)+chr(95)+p)}/SEED/meta.json"))
+    meta = json.load(open(os.environ["WT"] + "/SEED/meta.json"))
 except Exception as e:
     meta = {"note": f"agent meta.json unreadable: {e}"}
 out = {"property": p, "summary": meta.get("summary"), "needs": meta.get("needs"),
